@@ -210,7 +210,7 @@ func runC09(c *Ctx) {
 	// operation on the same shared object, so that first use — and any
 	// unsynchronised state behind that operation — happens under contention
 	// before anything else has ordered the tasks
-	burst := g.Chance(3)
+	burst := g.Chance(2)
 	burstOp := c09op{kind: enabledKinds[g.Draw(len(enabledKinds))], a: g.Draw(9), b: g.Draw(8), c: g.Draw(16)}
 	for t := range progs {
 		if burst {
